@@ -429,7 +429,13 @@ func main() {
 }
 
 func generate(o *cq.Opts, r *rand.Rand, add func(c12Case, ...string)) {
-	rep := o.Scale(1, 6)
+	rep := 2 // about 140 histories per round
+	if o.Tier == "thorough" {
+		rep = 8
+	}
+	if o.N > 0 {
+		rep = 1 + o.N/150
+	}
 	for k := 0; k < rep; k++ {
 		for _, kind := range kinds {
 			n := 150 + r.Intn(250)
@@ -515,8 +521,8 @@ func heap() uint64 {
 // ends do not grow; HeapAlloc after forced GC is supporting evidence only.
 func longRuns(o *cq.Opts, r *rand.Rand) []longResult {
 	n := 1000000
-	if o.N > 0 {
-		n = o.N
+	if v := os.Getenv("C12_LONG_N"); v != "" {
+		fmt.Sscan(v, &n) //nolint:errcheck
 	}
 	var res []longResult
 	type job struct {
